@@ -90,6 +90,44 @@ func c11(p *core.Program, r *core.Report) {
 
 	crossingConventionRule(p, r, "crossing-convention")
 	pointOnLineRule(p, r, "on-line-exact-predicate")
+	const rx = "ray-crossing-exact-predicate"
+	r.Rule(rx, "the ray-crossing counter decides on which side of the test point an edge crosses the ray with the exact orientation predicate applied to the three input coordinates (the test point and the edge's two vertices): countSegment calls OrientationIndex with exactly those operands, and nothing in package raycrossing calls into xy/internal/robustdeterminate, whose sign is exact only for the numbers it is handed - after the edge has been translated by the test point in float64 the differences are already rounded, so a point on an edge reads as off it and a point next to an edge as on it", 2)
+	if cs := mustFn(p, r, rx, "xy/internal/raycrossing", "(*rayCrossingCounter).countSegment"); cs != nil {
+		var inexact []string
+		exactCalls := 0
+		for _, f := range pkgFuncs(p, "xy/internal/raycrossing") {
+			for _, c := range eng.Calls(f) {
+				g := eng.StaticCallee(c)
+				if g == nil {
+					continue
+				}
+				if core.FnPkgPath(g) == mod+"/xy/internal/robustdeterminate" && g.Name() != "init" {
+					inexact = append(inexact, short(f)+" -> "+g.Name()+" at "+p.Pos(c.Pos()))
+				}
+				if g.Name() == "OrientationIndex" && (core.FnPkgPath(g) == mod+"/bigxy" || core.FnPkgPath(g) == mod+"/xy") && f == cs {
+					// operands: the counter's point and the two vertex parameters, each once
+					seen := map[string]bool{}
+					for _, a := range c.Common().Args {
+						switch {
+						case a == ssa.Value(cs.Params[1]):
+							seen["p1"] = true
+						case a == ssa.Value(cs.Params[2]):
+							seen["p2"] = true
+						default:
+							if _, path, ok := fieldLoad(a); ok && path == ".p" {
+								seen["p"] = true
+							}
+						}
+					}
+					if len(seen) == 3 {
+						exactCalls++
+					}
+				}
+			}
+		}
+		r.Check(len(inexact) == 0, rx, "xy/internal/raycrossing/no-rounded-determinant", p.Pos(cs.Pos()), true, "no call into robustdeterminate", fmt.Sprintf("the side of the crossing is the sign of a determinant of rounded differences: %v", inexact))
+		r.Check(exactCalls >= 1, rx, short(cs)+"/orientation-of-inputs", p.Pos(cs.Pos()), true, "OrientationIndex(test point, p1, p2)", "countSegment does not apply the exact orientation predicate to the test point and the edge's two vertices")
+	}
 	planarLayoutArgsRule(p, r, "planar-layout-arguments")
 	const r3 = "location-values"
 	r.Rule(r3, "getLocation returns only the constants Interior, Boundary, Exterior (Boundary exactly when isPointOnSegment); raycrossing.LocatePointInRing returns only getLocation(); xy.LocatePointInRing is a pure delegation; xy.IsPointInRing is `LocatePointInRing(...) != location.Exterior`", 4)
